@@ -78,6 +78,10 @@ void run_file(Ctx &c, const sim::Op &op) {
         s.read_error_at = (size_t)p.get("fault_offset", 0);
         s.read_error_persistent = p.get("fault_transient", 0) == 0;
     }
+    if (fault == 5) { // everything is read, then closing the stream reports an error (close(2) on NFS/FUSE): the header says nothing about it,
+                      // so the call may succeed with the complete contents or fail cleanly - never fail and keep the contents
+        s.close_errno = (int)p.get("fault_errno", EIO);
+    }
     s.chunk = (size_t)p.get("chunk", 0);
     s.unbuffered = p.get("unbuffered", 0) != 0;
     simfile::set_read_script(s);
@@ -93,7 +97,7 @@ void run_file(Ctx &c, const sim::Op &op) {
     simfile::ReadStats st = simfile::read_stats();
     // a transient read error (one failed read call, after which the data continues) may legitimately be absorbed:
     // the call may then succeed, provided the contents are complete and correct (checked below)
-    bool transient = st.error_fired && !s.read_error_persistent;
+    bool transient = (st.error_fired && !s.read_error_persistent) || st.close_error_fired;
     bool fault_hit = s.fopen_errno || (!with_hint && (s.fstat_errno || s.fileno_fails)) || (st.error_fired && !transient);
     if (transient) sim::probe(rc == AWS_OP_SUCCESS ? "transient_read_error_absorbed" : "transient_read_error_reported");
     if (st.opens != 1) sim::violation("c01:file-open", "the file was opened %d times", st.opens);
@@ -503,10 +507,11 @@ void gen(uint64_t seed, int tier, sim::Plan &p) {
         p.cfg["size_delta"] = r.pick(std::vector<int64_t>{1, 2, 31, 32, 4096});
         p.cfg["chunk"] = r.pick(std::vector<int64_t>{0, 0, 1, 7, 32, 4096});
         p.cfg["unbuffered"] = r.chance(0.4);
-        int fault = r.chance(0.5) ? 0 : (int)r.range(1, 4);
+        int fault = r.chance(0.5) ? 0 : (int)r.range(1, 5);
         p.cfg["fault"] = fault;
         if (fault == 1) p.cfg["fault_errno"] = r.pick(std::vector<int64_t>{ENOENT, EACCES, EMFILE, EIO});
         if (fault == 2) p.cfg["fault_errno"] = r.pick(std::vector<int64_t>{EIO, EACCES, ENOMEM, EBADF});
+        if (fault == 5) p.cfg["fault_errno"] = r.pick(std::vector<int64_t>{EIO, ESTALE, EBADF});
         if (fault == 4) {
             p.cfg["fault_errno"] = r.pick(std::vector<int64_t>{EIO, EINTR, ENOSPC});
             p.cfg["fault_offset"] = r.chance(0.3) ? 0 : r.range(0, L + 2);
